@@ -110,11 +110,17 @@ func hopsJSON(hs []hop) []jmap {
 
 var c17Names = []string{"x-h1", "x-h2", "x-h3", "x-h4"}
 
+var c17Pool = []string{"same", "dup"}
+
 func c17GenHops(rng *lab.Rand, level string) ([]hop, []string) {
 	var adds []hop
 	for i := rng.Intn(3); i > 0; i-- {
 		h := hop{Key: c17Names[rng.Intn(len(c17Names))], Val: level + rng.Alnum(3), Append: rng.Bool()}
-		if rng.Chance(1, 3) {
+		if rng.Chance(1, 4) {
+			// a value from a two-element pool: the same value recurs at several levels, in the client's own headers and in the
+			// upstream's response (an appended value equal to what the header already holds is still appended)
+			h.Val = c17Pool[rng.Intn(len(c17Pool))]
+		} else if rng.Chance(1, 3) {
 			// the value is a %variable% (resolved per request): the same two variables recur at every level and in request and
 			// response additions, with independent append flags
 			h.Val = "%" + c17Vars[rng.Intn(len(c17Vars))][0] + "%"
@@ -394,6 +400,9 @@ func c17Engine(c *lab.Ctx) {
 						for _, n := range c17Names {
 							if rng.Bool() {
 								v := "c" + rng.Alnum(3)
+								if rng.Chance(1, 4) {
+									v = c17Pool[rng.Intn(len(c17Pool))]
+								}
 								sent[n] = v
 								req.Headers = append(req.Headers, [2]string{n, v})
 							}
@@ -403,6 +412,9 @@ func c17Engine(c *lab.Ctx) {
 						for _, n := range c17Names {
 							if rng.Bool() {
 								v := "u" + rng.Alnum(3)
+								if rng.Chance(1, 4) {
+									v = c17Pool[rng.Intn(len(c17Pool))]
+								}
 								upResp[n] = v
 								inj = append(inj, n+"="+v)
 							}
